@@ -21,7 +21,10 @@ const int NKEYS = 7;   // '_' lies between 'Z' and 'a': exposes wrong case foldi
 const char* const PARSE_TEXTS[] = { "[1,2,3]", "{\"a\":1,\"A\":2,\"b\":3}", "[[1],{\"a\":[]}]", "{\"b\":1,\"a\":2}", "{\"a\":1,\"c\":2,\"b\":3}", "\"str\"", "[{\"a\":1,\"a\":2}]", "{\"k\":{\"b\":1,\"a\":2},\"B\":[]}" };
 const int NPARSE = sizeof PARSE_TEXTS / sizeof *PARSE_TEXTS;
 // malformed texts: every one must be rejected, and the rejection must release everything exactly once
-const char* const BAD_TEXTS[] = { "{\"name\" 1}", "{\"a\":1,\"name\"}", "{\"name\"", "[\"\\uDE00\"]", "[\"x\\uD800y\"]", "[\"\\x41\"]", "[1,", "{\"a\":1,", "[1 2]", "{\"a\":[1,{\"b\":\"c\"},tru]}", "\"abc", "[[\"a\",\"b\"],{\"k\":\"v\"},nul]", "{\"k\":\"\\u12\"}", "{\"k\":\"v\",\"\\uD800\\u0041\":1}", "[\"ok\",\"bad\\q\"]", "{\"a\":{\"b\":{\"c\":[\"d\",}}}" };
+const char* const BAD_TEXTS[] = { "{\"name\" 1}", "{\"a\":1,\"name\"}", "{\"name\"", "[\"\\uDE00\"]", "[\"x\\uD800y\"]", "[\"\\x41\"]", "[1,", "{\"a\":1,", "[1 2]", "{\"a\":[1,{\"b\":\"c\"},tru]}", "\"abc", "[[\"a\",\"b\"],{\"k\":\"v\"},nul]", "{\"k\":\"\\u12\"}", "{\"k\":\"v\",\"\\uD800\\u0041\":1}", "[\"ok\",\"bad\\q\"]", "{\"a\":{\"b\":{\"c\":[\"d\",}}}",
+    // number-character runs longer than any fixed scratch buffer that contain no number / a number with a malformed tail
+    "-eeeeeeeeeeeeeeeeeeeeeeeeeeeeeeeeeeeeeeeeeeeeeeeeeeeeeeeeeeeeeeeeeeeeeeeeeeeeeeeeee", "[1,--7777777777777777777777777777777777777777777777777777777777777777777777777777]",
+    "{\"a\":[true,-.e+0000000000000000000000000000000000000000000000000000000000000000000000000000000]}", "[0.33333333333333333333333333333333333333333333333333333333333333333333333333333-+e.]" };
 const int NBAD = sizeof BAD_TEXTS / sizeof *BAD_TEXTS;
 
 std::string op_text(const Op& o) {
@@ -158,7 +161,7 @@ bool Exec::apply(const Op& o) {
         expect(ok, "model:add-reference-refused", "AddItemReferenceTo* returned false");
         if (!ok) return true;
         cJSON* last = p->real->child ? p->real->child->prev : nullptr;
-        MN* r = w.mk(); r->kind = t->kind; r->ref = true; r->btarget = t; r->num = t->num; r->vint = t->vint; r->str = t->str; r->real = last; r->parent = p;
+        MN* r = w.mk(); r->kind = t->kind; r->ref = true; r->btarget = t->ref ? t->btarget : t; r->chainref = t->ref && t->chainref; r->litref = t->ref && t->litref; /* a reference to a reference node is a second, independent reference node to the same target */ r->num = t->num; r->vint = t->vint; r->str = t->str; r->real = last; r->parent = p;
         if (o.code == O_ADD_REF_OBJ) { r->haskey = true; r->key = KEYS[o.c]; }
         p->kids.push_back(r); return true;
     }
